@@ -310,8 +310,7 @@ F('ellipse.rs', 'Ellipse', 'from_affine', 'ellipse_from_affine', AO + 'ellipse_f
 F('ellipse.rs', 'Ellipse', 'with_center', 'ellipse_with_center', AO + 'ellipse_with_center')
 F('ellipse.rs', 'Ellipse', 'center', 'ellipse_center', AO + 'ellipse_center', also=also(SQ + 'ellipse_center', SP + 'ellipse_center'))
 F('ellipse.rs', 'Ellipse', 'radii', 'ellipse_radii', SQ + 'ellipse_radii')
-# KV.AffineOps.ellipse_radii_and_rotation is [aff_svd] (the svd before repair C10-svd-minor-radius): not what the source says any more
-F('ellipse.rs', 'Ellipse', 'radii_and_rotation', 'ellipse_radii_and_rotation', SQ + 'ellipse_radii_and_rotation')
+F('ellipse.rs', 'Ellipse', 'radii_and_rotation', 'ellipse_radii_and_rotation', SQ + 'ellipse_radii_and_rotation', also=also(AO + 'ellipse_radii_and_rotation'))
 F('ellipse.rs', 'Ellipse', 'add', 'ellipse_add_v', AO + 'ellipse_add_v', trait='Add<Vec2>')
 F('ellipse.rs', 'Ellipse', 'sub', 'ellipse_sub_v', AO + 'ellipse_sub_v', trait='Sub<Vec2>')
 F('ellipse.rs', 'Affine', 'mul', 'aff_mul_ellipse', AO + 'aff_mul_ellipse', trait='Mul<Ellipse>')
@@ -328,6 +327,7 @@ F('rounded_rect.rs', 'RoundedRect', 'from_rect', 'rrect_from_rect', AO + 'rrect_
 F('rounded_rect.rs', 'RoundedRect', 'width', 'rr_width', SQ + 'rr_width')
 F('rounded_rect.rs', 'RoundedRect', 'height', 'rr_height', SQ + 'rr_height')
 F('rounded_rect.rs', 'RoundedRect', 'radii', 'rr_radii_get')
+F('rounded_rect.rs', 'RoundedRect', 'rect', 'rr_rect_get')
 F('rounded_rect.rs', 'RoundedRect', 'center', 'rr_center', SQ + 'rr_center')
 F('rounded_rect.rs', 'RoundedRect', 'winding', 'rr_winding', SQ + 'rr_winding', trait='Shape')
 F('rounded_rect.rs', 'RoundedRect', 'bounding_box', 'rr_bounding_box', SQ + 'rr_bounding_box', trait='Shape')
@@ -349,6 +349,8 @@ F('translate_scale.rs', 'f64', 'mul', 'ts_scalar_mul', AO + 'ts_scalar_mul', tra
 F('translate_scale.rs', 'Affine', 'from', 'ts_to_affine', AO + 'ts_to_affine', trait='From<TranslateScale>')
 F('translate_scale.rs', 'TranslateScale', 'mul', 'ts_mul_radii', AO + 'ts_mul_radii', trait='Mul<RoundedRectRadii>')
 F('translate_scale.rs', 'TranslateScale', 'default', 'ts_default', AO + 'ts_default', trait='Default')
+F('translate_scale.rs', 'TranslateScale', 'mul', 'ts_mul_rrect', AO + 'ts_mul_rrect', trait='Mul<RoundedRect>')
+F('arc.rs', 'Affine', 'mul', 'aff_mul_arc', AO + 'aff_mul_arc', trait='Mul<Arc>')
 F('cubicbez.rs', 'CubicBez', 'parameters', 'cubic_parameters', TQ + 'cubic_parameters')
 F('cubicbez.rs', 'CubicBez', 'from_parameters', 'cubic_from_parameters', TQ + 'cubic_from_parameters')
 F('cubicbez.rs', 'CubicBez', 'subdivide_3', 'cubic_subdivide_3', TQ + 'cubic_subdivide_3')
